@@ -201,7 +201,8 @@ JUNK = [
     ("", "empty"), ("default", "default"), ("DEFAULT", "default"), ("Default", "default"),
     ("-1", "negative"), ("0", "zero"), ("1", "one"), ("2", "small-int"), ("3", "small-int"), ("7", "small-int"),
     ("65", "small-int"), ("66", "small-int"), ("999999", "big-int"), ("99999999999999999999999", "huge-int"),
-    ("1.5", "float"), ("1e3", "float"), ("nan", "float"), ("0x10", "hex"), ("1_0", "underscore-int"),
+    ("1.5", "float"), ("1e3", "float"), ("nan", "float"), ("25.0", "float"), ("inf", "float-inf"), ("-inf", "float-inf"),
+    ("Infinity", "float-inf"), ("1e999", "float-inf"), ("1.0368E+6", "float"), ("-1e999", "float-inf"), ("0x10", "hex"), ("1_0", "underscore-int"),
     ("+5", "signed-int"), ("-0", "signed-int"), (" 3 ", "padded-int"), ("2 ", "padded-int"), ("\t", "whitespace"),
     ("١", "unicode-digit"), ("９", "unicode-digit"), ("abc", "word"), ("√", "symbol"), ("None", "word"),
     ("TRUE", "bool"), ("false", "bool"), ("yes", "bool"), ("n", "bool"), ("T", "bool"),
@@ -506,6 +507,21 @@ def random_csv_text(rng):
     if rng.random() < 0.5:
         text = char_noise(text, rng)
     return text
+
+
+def own_count_nonempty_columns(rows):
+    """Number of non-empty columns (same notion as in own_parse_names), from rows as parsed by the stdlib csv module."""
+    nonempty = set()
+    for r in rows:
+        if not r:
+            continue
+        k = r[0].strip()
+        if not k or k.startswith("#"):
+            continue
+        for j, c in enumerate(r[1:]):
+            if c.strip():
+                nonempty.add(j)
+    return len(nonempty)
 
 
 def own_parse_names(rows):
